@@ -422,6 +422,19 @@ Definition clear_images_widgets (ksup : bool) (ws : list (nat * wkind)) (s : scr
      mk_scr (s_prev s) (s_cdis s) (fold_left (fun l w => wdis_bump (fst w) l) ks (s_wdis s)) (s_canv s))
   else ([], s).
 
+(** the PUBLIC clear_images(widgets..., now=...) (:516-569) called by the application:
+    without widgets everything is cleared (:564-569), otherwise the kitty widgets among the
+    arguments (:538-563).  Result: what is written at once to the terminal (now=True:
+    write_tty), what is queued in the screen's output buffer until the next flush (now=False:
+    self.write; draw_screen flushes), the new state.  In both arms the disguise changes. *)
+Definition api_clear_images (ksup : bool) (ws : list (nat * wkind)) (now : bool) (s : scr)
+  : list stok * list stok * scr :=
+  let os := match ws with
+            | [] => clear_images_all ksup s
+            | _ => clear_images_widgets ksup ws s
+            end in
+  if now then (fst os, [], snd os) else ([], fst os, snd os).
+
 Fixpoint dedup_w (ws : list (nat * wkind)) : list (nat * wkind) :=
   match ws with
   | [] => []
